@@ -280,7 +280,15 @@ func (e *Engine) replayModel(vc *VC, ob *Obligation, o SolveOpts, outDir string)
 	if vc == nil || ob.Status != "sat" {
 		return rr
 	}
-	if !(ob.Kind == "dec" || ob.Kind == "nil" || ob.Kind == "idx" || ob.Kind == "slice" || ob.Kind == "assert" || ob.Kind == "div" || ob.Kind == "mapnil" || ob.Kind == "panic") {
+	var post *postInfo
+	if ob.Kind == "post" && ob.Clause != nil {
+		enc, root, why := e.encodeClause(vc.top, ob.ClausePkg, ob.Clause)
+		if root == nil {
+			rr.Outcome = "no-failing-input-found (clause not evaluable at run time: " + why + ")"
+			return rr
+		}
+		post = &postInfo{enc, root}
+	} else if !(ob.Kind == "dec" || ob.Kind == "nil" || ob.Kind == "idx" || ob.Kind == "slice" || ob.Kind == "assert" || ob.Kind == "div" || ob.Kind == "mapnil" || ob.Kind == "panic") {
 		return rr
 	}
 	if vc.top.Signature.Recv() == nil && vc.top.Parent() != nil {
@@ -321,7 +329,7 @@ func (e *Engine) replayModel(vc *VC, ob *Obligation, o SolveOpts, outDir string)
 			rr.Model[plan.items[i].Path] = plan.items[i].Val
 		}
 	}
-	src, ok := e.genReplayTest(vc, plan)
+	src, ok := e.genReplayTest(vc, plan, post)
 	if !ok {
 		return rr
 	}
@@ -368,6 +376,9 @@ func (e *Engine) replayModel(vc *VC, ob *Obligation, o SolveOpts, outDir string)
 	switch ob.Kind {
 	case "dec":
 		rr.Confirmed = outcome == "timeout"
+	case "post":
+		// the real function returned and the clause is false on the real post-state
+		rr.Confirmed = strings.HasPrefix(outcome, "returned clause: false")
 	default:
 		rr.Confirmed = strings.HasPrefix(outcome, "panic:")
 	}
@@ -380,7 +391,7 @@ func (e *Engine) replayModel(vc *VC, ob *Obligation, o SolveOpts, outDir string)
 	return rr
 }
 
-func (e *Engine) genReplayTest(vc *VC, plan *replayPlan) (string, bool) {
+func (e *Engine) genReplayTest(vc *VC, plan *replayPlan, post *postInfo) (string, bool) {
 	fn := vc.top
 	pkgName := fn.Pkg.Pkg.Name()
 	qual := func(p *types.Package) string {
@@ -514,15 +525,73 @@ func (e *Engine) genReplayTest(vc *VC, plan *replayPlan) (string, bool) {
 	for _, im := range replayImports[plan.pkg] {
 		imports[im] = true
 	}
+	if post != nil {
+		imports["encoding/json"] = true
+		for k := range post.enc.funcs {
+			if strings.HasPrefix(k, "import:") {
+				if pp := strings.TrimPrefix(k, "import:"); pp != plan.pkg {
+					imports[pp] = true
+				}
+			}
+		}
+	}
 	fmt.Fprintf(&b, "package %s\n\n// generated by /verif (govc): replay of a solver counterexample on the real code\n\nimport (\n\t\"fmt\"\n\t\"reflect\"\n\t\"strings\"\n\t\"testing\"\n\t\"time\"\n\t\"unsafe\"\n", pkgName)
 	for im := range imports {
 		fmt.Fprintf(&b, "\t%q\n", im)
 	}
-	fmt.Fprintf(&b, ")\n\nvar _ = strings.Split\nvar _ = reflect.ValueOf\nvar _ unsafe.Pointer\n%s\nfunc TestVerifReplay(t *testing.T) {\n", replayHelpers)
+	fmt.Fprintf(&b, ")\n\nvar _ = strings.Split\nvar _ = reflect.ValueOf\nvar _ unsafe.Pointer\n%s\n", replayHelpers)
+	if post != nil {
+		b.WriteString(specInterp)
+		b.WriteString("\nvar vrFuncs = map[string]any{\n")
+		for _, k := range sortedKeys(post.enc.funcs) {
+			if !strings.HasPrefix(k, "import:") {
+				fmt.Fprintf(&b, "\t%q: %s,\n", k, post.enc.funcs[k])
+			}
+		}
+		b.WriteString("}\n\nvar vrGlobals = map[string]any{\n")
+		for _, k := range sortedKeys(post.enc.globals) {
+			fmt.Fprintf(&b, "\t%q: %s,\n", k, post.enc.globals[k])
+		}
+		b.WriteString("}\n")
+	}
+	b.WriteString("\nfunc TestVerifReplay(t *testing.T) {\n")
 	b.WriteString(replayPrelude[plan.pkg])
 	b.WriteString(body.String())
-	fmt.Fprintf(&b, "\toutcome := vrRun(func() { %s })\n\tfmt.Println(\"VERIF-REPLAY outcome:\", outcome)\n}\n", call)
+	if post == nil {
+		fmt.Fprintf(&b, "\toutcome := vrRun(func() { %s })\n\tfmt.Println(\"VERIF-REPLAY outcome:\", outcome)\n}\n", call)
+		return b.String(), true
+	}
+	// postcondition replay: snapshot old() values, call, evaluate the clause on the real post-state
+	b.WriteString("\tenv := &vrEnv{}\n")
+	for _, rp := range plan.params {
+		if _, ok := rp.typ.Underlying().(*types.Pointer); ok {
+			fmt.Fprintf(&b, "\tenv.params = append(env.params, reflect.ValueOf(%s))\n", rp.root)
+		} else {
+			fmt.Fprintf(&b, "\tenv.params = append(env.params, reflect.ValueOf(%s).Elem())\n", rp.root)
+		}
+	}
+	for _, o := range post.enc.olds {
+		fmt.Fprintf(&b, "\tenv.olds = append(env.olds, vrSnapshot(env.eval(vrParse(%q))))\n", mustJSON(o))
+	}
+	nres := fn.Signature.Results().Len()
+	var lhs, refl []string
+	for i := 0; i < nres; i++ {
+		lhs = append(lhs, fmt.Sprintf("r%d", i))
+		refl = append(refl, fmt.Sprintf("reflect.ValueOf(&r%d).Elem()", i))
+	}
+	if nres > 0 {
+		fmt.Fprintf(&b, "\toutcome := vrRun(func() {\n\t\t%s := %s\n\t\tenv.results = []reflect.Value{%s}\n\t})\n", strings.Join(lhs, ", "), call, strings.Join(refl, ", "))
+	} else {
+		fmt.Fprintf(&b, "\toutcome := vrRun(func() { %s })\n", call)
+	}
+	fmt.Fprintf(&b, "\tholds := \"n/a\"\n\tif outcome == \"returned\" {\n\t\tholds = vrRun2(func() string { return fmt.Sprint(vrBool(env.eval(vrParse(%q)))) })\n\t}\n", mustJSON(post.root))
+	b.WriteString("\tfmt.Println(\"VERIF-REPLAY outcome:\", outcome, \"clause:\", holds)\n}\n\nfunc vrRun2(f func() string) (s string) {\n\tdefer func() {\n\t\tif r := recover(); r != nil {\n\t\t\ts = fmt.Sprint(\"eval-error: \", r)\n\t\t}\n\t}()\n\treturn f()\n}\n")
 	return b.String(), true
+}
+
+type postInfo struct {
+	enc  *specEncoder
+	root *specNode
 }
 
 func splitRoot(path string) (string, string) {
